@@ -362,3 +362,38 @@ func mkWitnessMain(args []string) {
 	os.WriteFile(path, wb, 0o644)
 	fmt.Printf("%s: %s %s %s %s triggers=%v\n%s", path, f.Config, f.Class, subClass(f.Sub), f.Site, f.Trig, in.Src)
 }
+
+func init() { extraCmds["log"] = logMain }
+
+// logMain: print the event log of a replay file's case (kinds: 1 exec 2 decode 3 flush 4 regwb 5 store 6 dispatch).
+func logMain(args []string) {
+	b, _ := os.ReadFile(args[0])
+	var f finding
+	if json.Unmarshal(b, &f) != nil || f.Input == nil {
+		fmt.Println("not a replay file")
+		return
+	}
+	in := *f.Input
+	if len(args) > 1 {
+		sb, _ := os.ReadFile(args[1])
+		in.Src = string(sb)
+	}
+	p := refParse(in.Src)
+	ref := refRun(p, in.Regs, in.Mem, 20000, true)
+	o := runMachine(f.Config, in.Src, in.Regs, in.Mem, runOpts{Budget: budgetFor(ref.Steps, len(p.Ins)), Log: true})
+	names := map[int]string{1: "exec", 2: "decode", 3: "flush", 4: "regwb", 5: "store", 6: "dispatch"}
+	for _, r := range o.Log {
+		txt := ""
+		pc := r.Pc
+		if r.Kind == 2 {
+			pc = r.A
+		}
+		if r.Kind == 1 || r.Kind == 2 {
+			if int(pc/4) < len(p.Ins) {
+				txt = p.Ins[pc/4].Text
+			}
+		}
+		fmt.Printf("cycle %5d %-8s seq=%-5d a=%-6d b=%-6d %s %v\n", r.Cycle, names[r.Kind], r.Seq, r.A, r.B, txt, r.Mem)
+	}
+	fmt.Println(o.Verdict, o.Cycles)
+}
